@@ -9,6 +9,8 @@ package main
 //
 // Header: probe=<kind> healthy=<n> puts=<n> vsize=<bytes> bound=<s> hbint=<ms> hbto=<ms>
 //   stall-reader    opens StreamWAL and never reads the stream
+//   stall-idle      the same, but the primary stops writing once the stream is stuck: only the
+//                   heartbeat timeout can evict the peer
 //   no-ack          reads the stream, never acknowledges (what the real replica does, too)
 //   slow-apply      reads one response every 200 ms
 //   abrupt-close    connected through a TCP forwarder that resets every connection mid-workload
@@ -422,7 +424,7 @@ func runC15(cs *Case, out func(string)) {
 			return
 		}
 		switch probe {
-		case "stall-reader":
+		case "stall-reader", "stall-idle":
 			expectEvict = true // never reads
 		case "no-ack":
 			go func() {
@@ -552,7 +554,10 @@ func runC15(cs *Case, out func(string)) {
 				break
 			}
 			// the primary notices a dead peer only when it sends: keep a trickle of writes going
-			op("put", func() error { return pe.Put([]byte("trickle"), []byte("x")) })
+			// (not for stall-idle, where only the heartbeat timeout may evict)
+			if probe != "stall-idle" {
+				op("put", func() error { return pe.Put([]byte("trickle"), []byte("x")) })
+			}
 			time.Sleep(100 * time.Millisecond)
 		}
 		if blocked {
@@ -618,7 +623,7 @@ func runC15(cs *Case, out func(string)) {
 		}
 	}
 	nt := 0
-	if bytesWritten > 1<<20 || blocked {
+	if bytesWritten > 256<<10 || blocked {
 		nt = 1
 	}
 	out(fmt.Sprintf("META probe=%s healthy=%d ops=%d blocked=%v mb=%.1f nontrivial=%d", probe, nHealthy, nops, blocked, float64(bytesWritten)/(1<<20), nt))
@@ -626,7 +631,7 @@ func runC15(cs *Case, out func(string)) {
 
 func genC15(w *bufio.Writer, seed int64, n int, tier string) {
 	r := rand.New(rand.NewSource(seed*104729 + 15))
-	kinds := []string{"abrupt-close", "no-ack", "tcp-stall", "slow-apply", "stall-reader", "writer-vs-poll"}
+	kinds := []string{"abrupt-close", "stall-idle", "tcp-stall", "no-ack", "slow-apply", "stall-reader", "writer-vs-poll"}
 	for i := 0; i < n; i++ {
 		k := kinds[i%len(kinds)]
 		healthy := 1
@@ -639,6 +644,9 @@ func genC15(w *bufio.Writer, seed int64, n int, tier string) {
 		}
 		if k == "writer-vs-poll" && healthy == 0 {
 			healthy = 1
+		}
+		if k == "stall-idle" {
+			puts = 40 // fills the stream's flow-control window, far from filling the send queue
 		}
 		hbint := 300 + 100*r.Intn(4)
 		fmt.Fprintf(w, "case g%d-%d probe=%s healthy=%d puts=%d vsize=%d bound=5 hbint=%d hbto=%d\nend\n", seed, i, k, healthy, puts, vsize, hbint, 4*hbint)
